@@ -29,7 +29,7 @@ from .core import EventLog, HarnessError
 
 BUSY_DELAYS = [1, 2, 5, 10, 15, 20, 25, 25, 25, 50, 50, 100]
 BUSY_TIMEOUT_MS = 5000          # the shipped default (sqlite3.connect timeout=5.0)
-REAL_WATCHDOG_S = 30.0          # real-time guard on one child step: harness error, never a verdict
+REAL_WATCHDOG_S = 100.0         # real-time guard on one child step (SQLAlchemy's own pool time-out is 30 s real): harness error, never a verdict
 
 # --------------------------------------------------------------------------
 # pipe protocol
